@@ -113,10 +113,30 @@ func buildAcmeStorages(items map[string]*AcmeCerts) []string {
 func (c *AcmeStorages) shrink() {
 	for item, del := range c.itemsDel {
 		if add, found := c.itemsAdd[item]; found && reflect.DeepEqual(add, del) {
-			delete(c.itemsAdd, item)
+			if !c.full {
+				// a full sync reports all the storages as added
+				delete(c.itemsAdd, item)
+			}
 			delete(c.itemsDel, item)
 		}
 	}
+}
+
+// Clear creates a new and empty AcmeData, used by a full sync, whose storages
+// know which ones were already committed. This way the storages that are not
+// acquired again, or that are acquired with a distinct content, can be
+// properly identified as removed.
+func (acme *AcmeData) Clear() *AcmeData {
+	storages := acme.Storages()
+	for name, item := range storages.items {
+		if _, added := storages.itemsAdd[name]; !added {
+			storages.itemsDel[name] = item
+		}
+	}
+	storages.items = map[string]*AcmeCerts{}
+	storages.itemsAdd = map[string]*AcmeCerts{}
+	storages.full = true
+	return &AcmeData{storages: storages}
 }
 
 // RemoveAll ...
@@ -133,6 +153,7 @@ func (c *AcmeStorages) RemoveAll(names []string) {
 func (c *AcmeStorages) Commit() {
 	c.itemsAdd = map[string]*AcmeCerts{}
 	c.itemsDel = map[string]*AcmeCerts{}
+	c.full = false
 }
 
 // AddDomains ...
